@@ -207,8 +207,10 @@ Qed.
 
 (* THE CONTRACT on the median-test oracle, at one chromosome of one sample.  Whenever both tests (female shift,
    male shift) yield a statistic f, m: both are non-negative; if the female-shifted chromosome's median is closer to
-   the autosomes' than the male-shifted one's (difference of medians as compare_to_auto computes it) then f < m; if
-   the male-shifted one is closer then m < f and f is above the floor of the denominator.  Nothing is asked when a
+   the autosomes' than the male-shifted one's (difference of medians as compare_to_auto computes it) then f <= m (not
+   f < m: a female sample's chrY lies entirely below the autosomes under either shift, both tests then see the same
+   contingency table and f = m); if the male-shifted one is closer then m < f and f is above the floor of the
+   denominator.  Nothing is asked when a
    test yields no statistic. *)
 Definition stat_contract (gstat : mtable -> Q) (auto_l : list Q) (auto_w : option (list Q))
   (vals : list Q) (w : option (list Q)) (female_shift male_shift : Q) : Prop :=
@@ -217,7 +219,7 @@ Definition stat_contract (gstat : mtable -> Q) (auto_l : list Q) (auto_w : optio
     mood_stat gstat auto_l (map (fun x => qadd x male_shift) vals) = Some m ->
     0 <= f /\ 0 <= m /\
     (med_diff auto_l auto_w (map (fun x => qadd x female_shift) vals) w <
-     med_diff auto_l auto_w (map (fun x => qadd x male_shift) vals) w -> f < m) /\
+     med_diff auto_l auto_w (map (fun x => qadd x male_shift) vals) w -> f <= m) /\
     (med_diff auto_l auto_w (map (fun x => qadd x male_shift) vals) w <
      med_diff auto_l auto_w (map (fun x => qadd x female_shift) vals) w -> m < f /\ lr_denominator_floor < f).
 
@@ -228,7 +230,7 @@ Lemma stat_contract_def gstat auto_l auto_w vals w fs ms :
      mood_stat gstat auto_l (map (fun x => qadd x ms) vals) = Some m ->
      0 <= f /\ 0 <= m /\
      (med_diff auto_l auto_w (map (fun x => qadd x fs) vals) w < med_diff auto_l auto_w (map (fun x => qadd x ms) vals) w ->
-      f < m) /\
+      f <= m) /\
      (med_diff auto_l auto_w (map (fun x => qadd x ms) vals) w < med_diff auto_l auto_w (map (fun x => qadd x fs) vals) w ->
       m < f /\ lr_denominator_floor < f)).
 Proof. reflexivity. Qed.
@@ -249,7 +251,7 @@ Proof.
   apply andb_true_iff in H. destruct H as [H H4]. apply andb_true_iff in H. destruct H as [H H3].
   apply andb_true_iff in H. destruct H as [H1 H2]. apply qle_b_iff in H1. apply qle_b_iff in H2.
   split; [exact H1|]. split; [exact H2|]. split.
-  - intros K. apply qlt_b_iff in K. rewrite K in H3. cbn [negb orb] in H3. apply qlt_b_iff. exact H3.
+  - intros K. apply qlt_b_iff in K. rewrite K in H3. cbn [negb orb] in H3. apply qle_b_iff. exact H3.
   - intros K. apply qlt_b_iff in K. rewrite K in H4. cbn [negb orb] in H4. apply andb_true_iff in H4.
     destruct H4 as [A B]. split; apply qlt_b_iff; assumption.
 Qed.
@@ -260,6 +262,21 @@ Proof.
   unfold stat_route, stat_absent.
   destruct (mood_stat gstat auto_l (map (fun x => qadd x fs) vals)); [|left; reflexivity].
   destruct (mood_stat gstat auto_l (map (fun x => qadd x ms) vals)); [discriminate|right; reflexivity].
+Qed.
+
+(* the ratio of two statistics, at most 1 *)
+Lemma lr_of_stats_le1 f m fd md : 0 <= f -> f <= m -> lr_of (Some f) (Some m) fd md <= 1.
+Proof.
+  intros Hf Hfm. cbn [lr_of]. rewrite qdiv_spec. pose proof (qmax2_floor_pos m) as Hp.
+  destruct (qmax2_spec m lr_denominator_floor) as [H1 _].
+  apply Qle_shift_div_r; [exact Hp|]. lra.
+Qed.
+
+Lemma decision_female_le x y : 0 <= x -> x <= 1 -> (match y with Some v => 0 <= v /\ v <= 1 | None => True end) ->
+  is_xy_of (score_of x y) = false.
+Proof.
+  intros Hx0 Hx Hy. apply is_xy_of_false. destruct y as [v|]; cbn [score_of]; [|lra].
+  rewrite qmul_spec. nra.
 Qed.
 
 (* the ratio of the differences of medians, below 1 *)
@@ -307,10 +324,10 @@ Section Chromosome.
     - apply lr_of_diffs; [left; reflexivity|]. rewrite Ef, Em. split; assumption.
   Qed.
 
-  (* the female-shifted chromosome is the closer one: ratio in [0, 1) *)
+  (* the female-shifted chromosome is the closer one: ratio in [0, 1] *)
   Lemma chrom_speaks_female :
     Qabs (A - (V + fs)) < Qabs (A - (V + ms)) ->
-    0 <= male_lr gstat auto_l auto_w vals w fs ms /\ male_lr gstat auto_l auto_w vals w fs ms < 1.
+    0 <= male_lr gstat auto_l auto_w vals w fs ms /\ male_lr gstat auto_l auto_w vals w fs ms <= 1.
   Proof.
     intros H1. unfold male_lr.
     pose proof (med_diff_shift auto_l auto_w vals w fs Hvals Hw) as Ef.
@@ -323,10 +340,10 @@ Section Chromosome.
       destruct (mood_stat gstat auto_l (map (fun x => qadd x ms) vals)) as [m|] eqn:Sm.
     - destruct (Hc f m Sf Sm) as (Hf & _ & K & _). split.
       + apply lr_of_stats_nonneg. exact Hf.
-      + apply lr_of_stats_female; [exact Hf|]. apply K. exact Hlt.
-    - apply lr_of_diffs_lt1; [right; reflexivity|exact H0|exact Hlt].
-    - apply lr_of_diffs_lt1; [left; reflexivity|exact H0|exact Hlt].
-    - apply lr_of_diffs_lt1; [left; reflexivity|exact H0|exact Hlt].
+      + apply lr_of_stats_le1; [exact Hf|]. apply K. exact Hlt.
+    - destruct (lr_of_diffs_lt1 (Some f) None _ _ (or_intror eq_refl) H0 Hlt) as [P1 P2]. split; [exact P1|lra].
+    - destruct (lr_of_diffs_lt1 None (Some m) _ _ (or_introl eq_refl) H0 Hlt) as [P1 P2]. split; [exact P1|lra].
+    - destruct (lr_of_diffs_lt1 None None _ _ (or_introl eq_refl) H0 Hlt) as [P1 P2]. split; [exact P1|lra].
   Qed.
 End Chromosome.
 
@@ -444,7 +461,7 @@ Section CentredNoise.
   Qed.
 
   (* chrX of a female sample does not *)
-  Lemma cn_x_lr_female : female = true -> 0 <= x_lr_of gstat hap build t /\ x_lr_of gstat hap build t < 1.
+  Lemma cn_x_lr_female : female = true -> 0 <= x_lr_of gstat hap build t /\ x_lr_of gstat hap build t <= 1.
   Proof.
     intros Hf. unfold x_lr_of. fold chrx. fold auto.
     pose proof (cn_auto _ _ _ _ _ _ _ Hcn) as HA. pose proof (cn_x _ _ _ _ _ _ _ Hcn) as HV.
@@ -464,7 +481,7 @@ Section CentredNoise.
   (* chrY, when it has bins: a male sample's speaks for male, a female sample's does not *)
   Lemma cn_y_lr :
     match y_lr_of gstat build t with
-    | Some v => if female then 0 <= v /\ v < 1 else 1 < v
+    | Some v => if female then 0 <= v /\ v <= 1 else 1 < v
     | None => True
     end.
   Proof.
@@ -503,8 +520,8 @@ Section CentredNoise.
     pose proof cn_y_lr as Hy.
     assert (Hcase : female = true \/ female = false) by (destruct female; auto).
     destruct Hcase as [Ef|Ef]; rewrite Ef; rewrite Ef in Hy; cbn [negb].
-    - destruct (cn_x_lr_female Ef) as [Hx0 Hx1]. apply decision_female; [exact Hx0|exact Hx1|].
-      destruct (y_lr_of gstat build t) as [v|]; [|exact I]. destruct Hy as [H0 H1]. split; lra.
+    - destruct (cn_x_lr_female Ef) as [Hx0 Hx1]. apply decision_female_le; [exact Hx0|exact Hx1|].
+      destruct (y_lr_of gstat build t) as [v|]; [|exact I]. exact Hy.
     - apply decision_male; [exact (cn_x_lr_male Ef)|].
       destruct (y_lr_of gstat build t) as [v|]; [exact Hy|exact I].
   Qed.
